@@ -155,7 +155,10 @@ def gen_history(rng, length, methods, fault_p=0.0):
         elif k == "exchange":
             t = rng.choice(temps) if temps and rng.random() < 0.9 else None
             c = (t["client"] if t and rng.random() < 0.8 else rng.choice(clients + [None, "ghost"]))
-            ver = (t.get("verifier") if t and rng.random() < 0.85 else rng.choice([None, "ver999", ""]))
+            ver = (t.get("verifier") if t and rng.random() < 0.8 else rng.choice([None, "ver999", ""]))
+            if t and t.get("verifier") and rng.random() < 0.12:
+                v0 = t["verifier"]
+                ver = rng.choice([v0[:-1], v0[:1], v0 + "x", v0 + "0", v0.upper()])       # proper prefix / extension / other case of the right verifier
             op = dict({"op": k, "client": c, "token": t["token"] if t else rng.choice([None, "tmp999"]), "verifier": ver}, **sg(c, t["secret"] if t else "zz"))
         elif k == "access":
             t = rng.choice(creds) if creds and rng.random() < 0.9 else None
@@ -199,7 +202,7 @@ def cases(rng, tier):
     def S(c, ts, n, t=str(NOW0)):
         return {"method": "HMAC-SHA1", "timestamp": t, "nonce": n, "signed_with": [SECRETS[c], ts]}
     base = [dict({"op": "initiate", "client": "ca", "callback": "oob", "callback_valid": False}, **S("ca", "", "i1")), {"op": "authorize", "token": "tmp1", "user": 1}]
-    for variant in ("ok", "other-client", "no-approval", "wrong-verifier", "no-verifier", "wrong-client-secret", "wrong-token-secret", "reuse", "replay-verbatim", "old-timestamp",
+    for variant in ("ok", "other-client", "no-approval", "wrong-verifier", "verifier-prefix", "verifier-first-char", "verifier-extended", "no-verifier", "wrong-client-secret", "wrong-token-secret", "reuse", "replay-verbatim", "old-timestamp",
                     "unsupported-method", "denied"):
         ops = list(base)
         if variant == "no-approval": ops = ops[:1]
@@ -207,6 +210,9 @@ def cases(rng, tier):
         ex = dict({"op": "exchange", "client": "ca", "token": "tmp1", "verifier": "ver3"}, **S("ca", "tsec2", "e1"))
         if variant == "other-client": ex.update(client="cb", signed_with=[SECRETS["cb"], "tsec2"])
         if variant == "wrong-verifier": ex["verifier"] = "ver4"
+        if variant == "verifier-prefix": ex["verifier"] = "ver"
+        if variant == "verifier-first-char": ex["verifier"] = "v"
+        if variant == "verifier-extended": ex["verifier"] = "ver3x"
         if variant == "no-verifier": ex["verifier"] = None
         if variant == "wrong-client-secret": ex["signed_with"] = ["nope", "tsec2"]
         if variant == "wrong-token-secret": ex["signed_with"] = [SECRETS["ca"], "nope"]
